@@ -32,7 +32,9 @@ C16BitIOFails(c) ==
 C16DictFails(c) ==
   FailSet(<<
     <<"dictionary-io-raised:" \o c.exc, c.exc = "">>,
-    <<"dictionary-reader-is-not-the-inverse-of-writer", c.exc # "" \/ c.back = c.d>>,
+    \* a dictionary is a key -> value map: the order in which the records come back is not part of its value
+    <<"dictionary-reader-is-not-the-inverse-of-writer",
+        c.exc # "" \/ (Len(c.back) = Len(c.d) /\ SeqSet(c.back) = SeqSet(c.d))>>,
     <<"truncated-data-accepted", c.exc # "" \/ \A j \in DOMAIN c.trunc : c.trunc[j] = "BinaryDictIOError">>,
     <<"trailing-data-accepted", c.exc # "" \/ \A j \in DOMAIN c.ext : c.ext[j] = "BinaryDictIOError">>
   >>)
